@@ -311,6 +311,22 @@ fn cmd_gen_cases(m: &HashMap<String, String>) {
         }
         return;
     }
+    if kind == "nearties" {
+        // weights 2^25 + d (d = 0..2) next to weight 1, over 2 or 2^40: exact in f64, but routes differ by less than
+        // single precision resolves (the three big weights are one f32), so a narrowed heap key or distance merges
+        // them.  Paths!INF is 10^8, so at most two big weights may lie on a route: callers pass minn = maxn = 3.
+        for i in 0..n {
+            let specs = kinds[i % kinds.len()];
+            let nn = rng.gen_range(minn..=maxn).min(3);
+            let p = [0.5, 0.7, 0.9][rng.gen_range(0..3)];
+            let b: i64 = 1 << 25;
+            let weights = vec![1, 1, b, b + 1, b + 2];
+            let mut case = cases::case_json(specs, &cases::random_graph(&mut rng, specs, nn, p, &weights), "nearties");
+            case["wdiv"] = serde_json::json!(if i % 2 == 0 { 2i64 } else { 1i64 << 40 });
+            writeln!(out, "{}", case).unwrap();
+        }
+        return;
+    }
     if kind == "patterned" {
         // weights that follow a pattern a shortcut could mistake for "no weights": a function of the source
         // node, of the target node, one constant other than 1, all 1 except one heavy edge
@@ -389,6 +405,12 @@ fn cmd_gen_cases(m: &HashMap<String, String>) {
                 let k = rng.gen_range(2..=maxn);
                 let len = rng.gen_range(3..=14);
                 cases::case_json(specs, &cases::random_dup_history(&mut rng, k, len), "dups")
+            }
+            "hubdups" => {
+                let specs = all[rng.gen_range(0..all.len())];
+                let specs = SpecsJ { missing: 0, ..specs };
+                let k = rng.gen_range(10..=12);
+                cases::case_json(specs, &cases::hub_dup_history(&mut rng, k), "hubdups")
             }
             _ => {
                 let specs = kinds[i % kinds.len()];
